@@ -548,9 +548,12 @@ impl ParsedValue {
         key_path: &KeyPath,
     ) -> Result<Self> {
         match self {
-            ParsedValue::Default | ParsedValue::ForeignKey(_) | ParsedValue::Literal(_) => {
-                Ok(self.clone())
-            }
+            ParsedValue::Default | ParsedValue::Literal(_) => Ok(self.clone()),
+            ParsedValue::ForeignKey(inner_foreign_key) => match &*inner_foreign_key.borrow() {
+                // an already resolved nested foreign key: the args apply to its value too
+                ForeignKey::Set(inner) => inner.populate(args, foreign_key, locale, key_path),
+                ForeignKey::NotSet(_, _) => Ok(self.clone()),
+            },
             ParsedValue::Variable { key, formatter } => match args.get(&*key.name) {
                 Some(value) => Ok(value.clone()),
                 None => Ok(ParsedValue::Variable {
